@@ -23,7 +23,17 @@ IsPrinted(id) == id \div 1000000 = 1
 IsFrame(id)   == id \div 1000000 = 2
 Ellipsis == 3
 
-InitScreen == [rows |-> << <<>> >>, cy |-> 1, cx |-> 0, vis |-> TRUE, bad |-> "none", bell |-> 0]
+Grow2(rows, n) == IF Len(rows) >= n THEN rows ELSE rows \o [i \in 1..(n - Len(rows)) |-> <<>>]
+\* tw = terminal width in cells (0: unbounded - the design-level screens of Live.tla); col = cells written on the current
+\* row.  A text operation may carry its cell count as a third element; text that runs past the last column wraps onto the
+\* next row(s) as on a real (auto-wrap) terminal - which is how an over-wide frame line comes to occupy more rows than the
+\* display believes and leaves a remnant at the next refresh.
+InitScreen == [rows |-> << <<>> >>, cy |-> 1, cx |-> 0, vis |-> TRUE, bad |-> "none", bell |-> 0, tw |-> 0, col |-> 0]
+Cells(e) == IF Len(e) >= 3 THEN e[3] ELSE 0
+\* a terminal wraps when a character is written beyond the last column (writing exactly tw cells does not wrap yet)
+Wraps(s, w) == IF s.tw = 0 \/ w = 0 \/ s.col + w <= s.tw THEN 0 ELSE (s.col + w - 1) \div s.tw
+RECURSIVE Spill(_, _, _, _)
+Spill(rows, from, k, id) == IF k = 0 THEN rows ELSE Spill([Grow2(rows, from + 1) EXCEPT ![from + 1] = Append(@, id)], from + 1, k - 1, id)
 
 HasPrinted(row) == \E i \in DOMAIN row : IsPrinted(row[i])
 \* index of the last row holding a printed label (0 if none): the live region lies below it
@@ -36,10 +46,13 @@ Grow(rows, n) == IF Len(rows) >= n THEN rows ELSE rows \o [i \in 1..(n - Len(row
 \* one terminal operation: e = <<kind, arg>>
 ApplyOp(s, e) ==
     CASE e[1] = "t"    -> LET s1 == IF s.cx = 0 /\ s.rows[s.cy] # <<>> THEN Flag(s, "overwrite") ELSE s
-                          IN [s1 EXCEPT !.rows[s.cy] = Append(@, e[2]), !.cx = 1]
-      [] e[1] = "sp"   -> [s EXCEPT !.cx = 1]                     \* blanks: move the cursor only
-      [] e[1] = "nl"   -> [s EXCEPT !.cy = @ + 1, !.cx = 0, !.rows = Grow(@, s.cy + 1)]
-      [] e[1] = "cr"   -> [s EXCEPT !.cx = 0]
+                              k  == Wraps(s, Cells(e))
+                          IN [s1 EXCEPT !.rows = Spill([@ EXCEPT ![s.cy] = Append(@, e[2])], s.cy, k, e[2]), !.cx = 1,
+                                        !.cy = @ + k, !.col = s.col + Cells(e) - k * s.tw]
+      [] e[1] = "sp"   -> LET k == Wraps(s, Cells(e))              \* blanks: move the cursor only
+                          IN [s EXCEPT !.cx = 1, !.cy = @ + k, !.rows = Grow(@, s.cy + k), !.col = s.col + Cells(e) - k * s.tw]
+      [] e[1] = "nl"   -> [s EXCEPT !.cy = @ + 1, !.cx = 0, !.col = 0, !.rows = Grow(@, s.cy + 1)]
+      [] e[1] = "cr"   -> [s EXCEPT !.cx = 0, !.col = 0]
       [] e[1] = "el2"  -> LET s1 == IF HasPrinted(s.rows[s.cy]) THEN Flag(s, "erased-printed-line") ELSE s
                           IN [s1 EXCEPT !.rows[s.cy] = <<>>]
       [] e[1] = "cuu"  -> IF s.cy - e[2] < 1 THEN Flag([s EXCEPT !.cy = 1], "cursor-above-top")
